@@ -43,7 +43,7 @@ EXTENDS Phenotype, TLC
 
 (* ------------------------------------------------------------ the tables *)
 WDen == 256
-INF == 100000                       \* numerator that stands for +Inf (json.Marshal refuses it, %f prints +Inf)
+INF == 2000000000                      \* numerator that stands for +Inf (json.Marshal refuses it, %f prints +Inf)
 
 \* network.NeuronTypeName / NodeTypeName ("X": any other value of NodeNeuronType)
 NeuronTypeName(r) == CASE r = "I" -> "INPT" [] r = "B" -> "BIAS" [] r = "O" -> "OUTP" [] r = "H" -> "HIDN"
@@ -78,9 +78,10 @@ WTab == << WRec(-512, FALSE, 0, <<>>),            \* 1: -2
            WRec(1280, FALSE, 0, <<>>),            \* 6: 5
            WRec(1, FALSE, 0, <<>>),               \* 7: 1/256 = 0.00390625 rounds down
            WRec(-3, FALSE, 0, <<>>),              \* 8: -3/256 = -0.01171875 rounds away from zero
-           WRec(INF, FALSE, 0, <<>>) >>           \* 9: +Inf
-NFiniteW == 8
-WInf == 9
+           WRec(16777217, FALSE, 0, <<>>),        \* 9: (2^24 + 1)/256 = 65536.00390625: 25 significant bits (not a float32)
+           WRec(INF, FALSE, 0, <<>>) >>           \* 10: +Inf
+NFiniteW == 9
+WInf == 10
 \* what a genome can express (Genesis: NewLinkWithTrait for genes, NewLink for module links; never time delayed)
 WGenomeLink(w) == /\ WTab[w].num # INF /\ ~WTab[w].td
                   /\ WTab[w].par = (IF WTab[w].tr = 0 THEN <<>> ELSE TraitPar[WTab[w].tr])
@@ -160,12 +161,15 @@ StyleOut(st) ==
        ELSE [has_layout |-> eff.layout # 0, layout |-> eff.layout, has_style |-> eff.styles # <<>>, styles |-> eff.styles]
 
 (* ------------------------------------------------------------ DOT elements *)
-\* fmt.Sprintf("%f", w): the decimal rounding of num/256 to 6 places, exact ties to even, as micro-units
+\* fmt.Sprintf("%f", w): the decimal rounding of num/256 to 6 places, exact ties to even.  The text is given as sign,
+\* integer part and the 6 digits after the point as a number (TLC's integers are 32 bit: no product of the whole value)
 RoundHalfEven(a, d) ==           \* a >= 0, d > 0
     LET q == a \div d  r == a % d
     IN IF 2 * r < d THEN q ELSE IF 2 * r > d THEN q + 1 ELSE IF q % 2 = 0 THEN q ELSE q + 1
-Micro(num) == IF num >= 0 THEN RoundHalfEven(num * 1000000, WDen) ELSE 0 - RoundHalfEven((0 - num) * 1000000, WDen)
-MicroExact(num) == (num * 1000000) % WDen = 0
+AbsI(x) == IF x < 0 THEN 0 - x ELSE x
+FracMicro(num) == RoundHalfEven((AbsI(num) % WDen) * 1000000, WDen)        \* < 1000000 for WDen = 256: no carry
+DotW(num) == [neg |-> num < 0, ip |-> AbsI(num) \div WDen, fp |-> FracMicro(num)]
+MicroExact(num) == ((AbsI(num) % WDen) * 1000000) % WDen = 0
 
 \* NNode.Attributes: neuron_type always, activation_type iff the type is registered (act = "" when absent),
 \* parameters iff Params is not empty
@@ -173,9 +177,9 @@ DotNode(n) == [id |-> IdStr(n.id), neuron_type |-> NeuronTypeName(n.role),
                act |-> ActName[n.act + 1], par |-> n.par]
 \* Link.Attributes of the link Network.Edge(u, v) returns; an edge for which Edge() returns nil has no attribute list
 DotEdge(u, v, e) ==
-    IF e = NoEdge THEN [src |-> IdStr(u), dst |-> IdStr(v), attrs |-> FALSE, fin |-> TRUE, micro |-> 0, rec |-> FALSE, par |-> <<>>]
+    IF e = NoEdge THEN [src |-> IdStr(u), dst |-> IdStr(v), attrs |-> FALSE, fin |-> TRUE, w |-> DotW(0), rec |-> FALSE, par |-> <<>>]
     ELSE [src |-> IdStr(u), dst |-> IdStr(v), attrs |-> TRUE, fin |-> WTab[e.w].num # INF,
-          micro |-> IF WTab[e.w].num = INF THEN 0 ELSE Micro(WTab[e.w].num), rec |-> e.rec, par |-> WTab[e.w].par]
+          w |-> IF WTab[e.w].num = INF THEN DotW(0) ELSE DotW(WTab[e.w].num), rec |-> e.rec, par |-> WTab[e.w].par]
 
 RECURSIVE SetToAscF(_)
 SetToAscF(S) == IF S = {} THEN <<>> ELSE LET x == CHOOSE x \in S : \A y \in S : x <= y IN <<x>> \o SetToAscF(S \ {x})
@@ -290,10 +294,11 @@ SinkLaws(MaxL) ==
         /\ (k < MaxL + 1 /\ o.err) => SinkOutcome(L, k + 1).accepted = o.accepted + 1     \* one more byte fits
 RoundingLaws ==
     /\ \A w \in DOMAIN WTab : WTab[w].num # INF =>
-          LET num == WTab[w].num  m == Micro(num) IN
-          /\ (m * WDen - num * 1000000) * 2 <= WDen /\ (num * 1000000 - m * WDen) * 2 <= WDen    \* within half a unit
-          /\ MicroExact(num) => m * WDen = num * 1000000
-          /\ Micro(0 - num) = 0 - m
-    /\ Micro(2) = 7812 /\ Micro(6) = 23438                          \* the two ties, one each way
-    /\ Micro(1) = 3906 /\ Micro(-3) = -11719 /\ Micro(192) = 750000
+          LET num == WTab[w].num  f == AbsI(num) % WDen  d == DotW(num) IN
+          /\ d.fp < 1000000 /\ d.ip * WDen + f = AbsI(num)
+          /\ (d.fp * WDen - f * 1000000) * 2 <= WDen /\ (f * 1000000 - d.fp * WDen) * 2 <= WDen    \* within half a unit
+          /\ MicroExact(num) => d.fp * WDen = f * 1000000
+          /\ DotW(0 - num).fp = d.fp /\ DotW(0 - num).ip = d.ip
+    /\ FracMicro(2) = 7812 /\ FracMicro(6) = 23438                  \* the two ties, one each way
+    /\ FracMicro(1) = 3906 /\ FracMicro(-3) = 11719 /\ FracMicro(192) = 750000 /\ DotW(16777217) = [neg |-> FALSE, ip |-> 65536, fp |-> 3906]
 =============================================================================
